@@ -298,7 +298,7 @@ async def run_e2e(job):
             elif kind == 'sfull':
                 sim.full_update()
             elif kind == 'down':
-                sim.set_net(False)
+                sim.set_net(False, args[0] if args else None)
             elif kind == 'up':
                 sim.set_net(True)
             elif kind in ('mv', 'ma', 'md'):
